@@ -1,11 +1,2143 @@
-//! C03 — not implemented yet (stub).
-use crate::engine::Ctx;
-use serde_json::Value;
+//! C03 — a constructed state reproduces its specification, or construction fails.
+//!
+//! Parts
+//! * `gs-lattice`   seed-independent: every record of the Gross-Sadowski PC-SAFT collections x
+//!                  20 T/Tc x 30 p/pc x 3 phase hints: construction must succeed, meet the pressure,
+//!                  and the un-hinted result must be the lower-Gibbs one of the two hinted results.
+//! * `gs-box`       sampled points of the same box, full root oracle (independent p(rho) scan).
+//! * `tp`           sampled T-p constructions over the whole model zoo, every
+//!                  `DensityInitialization`, full root oracle; `Err` is allowed.
+//! * `echo-lattice` all 2^10 presence masks of the optional builder inputs x caloric kind x value
+//!                  draws x single invalid-value injections, for a pure and a binary model.
+//! * `echo`         sampled presence masks (12 bits), perturbed values, multiple injections.
+//! * `iter`         (p,h) (p,s) (T,h) (T,s) (V,u) targets from reachable single-phase states.
+//!
+//! All `check_*` functions are pure functions of a serialisable case.
+use crate::engine::{Ctx, Gen, Obs, PanicPolicy, PartCfg};
+use crate::model::*;
+use crate::scales::{contrib_abs, PD};
+use feos::core::Derivative::DV;
+use feos::core::{
+    Components, Contributions, DensityInitialization, EosError, EosResult, ReferenceSystem, Residual,
+    State, StateBuilder,
+};
+use ndarray::Array1;
+use quantity::*;
+use serde::{Deserialize, Serialize};
+use serde_json::{json, Value};
+use std::collections::{BTreeMap, HashMap};
+use std::panic::{catch_unwind, AssertUnwindSafe};
+use std::sync::{Arc, LazyLock, Mutex};
 
-pub fn run(_ctx: &Ctx) {
-    panic!("C03: check not implemented yet");
+use Contributions::Total as TOT;
+
+// ---------------------------------------------------------------------------------------
+// Tolerances (reduced units: energies in K, lengths in Angstrom, amounts in particles)
+// ---------------------------------------------------------------------------------------
+/// |p(state) - p| <= RTOL_P |p| + ATOL_P + ROUND_P (rho T + sum_c |p_c|).
+/// `density_iteration` stops at |p - p*| < max(1e-12, 1e-14 rho) (reduced) *before* applying the
+/// last Newton step: ATOL_P is 100 x that absolute tolerance, RTOL_P covers callers that think
+/// in relative terms, ROUND_P covers pure roundoff of the cancelling pressure terms.
+const RTOL_P: f64 = 1e-7;
+const ATOL_P: f64 = 1e-10;
+const ROUND_P: f64 = 1e-12;
+/// derived (not directly stored) echoed inputs: a handful of multiplications/divisions
+const RTOL_ECHO: f64 = 5e-14;
+/// Newton wrappers stop at |dx| <= atol + 1e-10 |x| and return the state of the *previous*
+/// iterate, so |f| <= |df/dx| (atol + 1e-10 |x|) exactly; factor 100 on top.
+const NEWTON_FACTOR: f64 = 100.0;
+const NEWTON_RTOL: f64 = 1e-10;
+const NEWTON_ATOL_T: f64 = 1e-8;
+const NEWTON_ATOL_RHO: f64 = 1e-12;
+/// roundoff floor of the caloric comparisons relative to (|value| + T)
+const ROUND_CAL: f64 = 1e-12;
+/// two roots whose molar Gibbs energies differ by less than this (x T) are a tie
+const TIE_G: f64 = 1e-9;
+
+// ---------------------------------------------------------------------------------------
+// worst observed ratio |difference| / tolerance per comparison kind (for calibration; written to
+// the evidence, never consulted by a verdict)
+// ---------------------------------------------------------------------------------------
+static WORST: LazyLock<Mutex<BTreeMap<String, (f64, String)>>> = LazyLock::new(|| Mutex::new(BTreeMap::new()));
+
+fn track(key: &str, ratio: f64, what: impl FnOnce() -> String) {
+    if !ratio.is_finite() {
+        return;
+    }
+    let mut w = WORST.lock().unwrap();
+    match w.get_mut(key) {
+        Some(e) => {
+            if ratio > e.0 {
+                *e = (ratio, what());
+            }
+        }
+        None => {
+            w.insert(key.to_string(), (ratio, what()));
+        }
+    }
 }
 
-pub fn replay(_ctx: &Ctx, _part: &str, _case: &Value) -> bool {
-    panic!("C03: check not implemented yet");
+/// comparison |u - v| <= tol with tracking of the worst ratio
+fn within(obs: &mut Obs, key: &str, what: &str, u: f64, v: f64, tol: f64) -> bool {
+    obs.count();
+    let d = (u - v).abs();
+    track(key, d / tol, || format!("{what}: {u:e} vs {v:e} tol {tol:e}"));
+    if !(d <= tol) {
+        obs.fail(format!("{what}: {u:e} vs {v:e} (diff {d:e} > tol {tol:e})"));
+        return false;
+    }
+    true
+}
+
+fn err_label(e: &EosError) -> &'static str {
+    match e {
+        EosError::Error(_) => "Error",
+        EosError::NotConverged(_) => "NotConverged",
+        EosError::IterationFailed(_) => "IterationFailed",
+        EosError::TrivialSolution => "TrivialSolution",
+        EosError::IncompatibleComponents(_, _) => "IncompatibleComponents",
+        EosError::InvalidState(_, _, _) => "InvalidState",
+        EosError::UndeterminedState(_) => "UndeterminedState",
+        EosError::SuperCritical => "SuperCritical",
+        EosError::NoPhaseSplit => "NoPhaseSplit",
+        EosError::WrongUnits(_, _) => "WrongUnits",
+        _ => "other",
+    }
+}
+
+// ---------------------------------------------------------------------------------------
+// Critical point scale (T_c, p_c) of pure component i, cached (lookup only, never iterated)
+// ---------------------------------------------------------------------------------------
+static CRIT: LazyLock<Mutex<HashMap<String, Option<[f64; 3]>>>> = LazyLock::new(|| Mutex::new(HashMap::new()));
+
+/// (T_c [K], p_c [reduced], rho_c [reduced]) of pure component i from the model's own critical point.
+fn crit(spec: &ModelSpec, model: &Arc<Model>, i: usize) -> Option<[f64; 3]> {
+    match spec.family {
+        Family::PengRobinson => {
+            let mr = &spec.pure[i]["model_record"];
+            let tc = mr["tc"].as_f64()?;
+            let pc = (mr["pc"].as_f64()? * PASCAL).to_reduced();
+            return Some([tc, pc, f64::NAN]);
+        }
+        Family::FmtFunctional => return None,
+        _ => {}
+    }
+    if spec.pure[i]["model_record"]["z"].as_f64().unwrap_or(0.0) != 0.0 {
+        return None;
+    }
+    let key = format!("{:?}|{}|{:?}|{:?}", spec.family, spec.pure[i], spec.seg, spec.opts);
+    if let Some(c) = CRIT.lock().unwrap().get(&key) {
+        return *c;
+    }
+    let sub = Arc::new(model.subset(&[i]));
+    // model::pure_tc has already solved (and cached) the critical temperature: start from it
+    let t_init = Temperature::from_reduced(pure_tc(spec, model, i));
+    let r = catch_unwind(AssertUnwindSafe(|| {
+        State::critical_point(&sub, None, Some(t_init), Default::default())
+            .or_else(|_| State::critical_point(&sub, None, None, Default::default()))
+    }));
+    let c = match r {
+        Ok(Ok(cp)) => {
+            let t = cp.temperature.to_reduced();
+            let p = cp.pressure(TOT).to_reduced();
+            let rho = cp.density.to_reduced();
+            if t.is_finite() && t > 1.0 && p.is_finite() && p > 0.0 && rho.is_finite() && rho > 0.0 {
+                Some([t, p, rho])
+            } else {
+                None
+            }
+        }
+        _ => None,
+    };
+    CRIT.lock().unwrap().insert(key, c);
+    c
+}
+
+/// Temperature and pressure scales of a mixture: mole-fraction averages of the pure critical
+/// values; `exact` iff every pure critical point converged (and the model is a pure substance).
+fn tp_scales(spec: &ModelSpec, model: &Arc<Model>, x: &[f64], rho_max: f64) -> (f64, f64, bool) {
+    let mut exact = spec.n() == 1;
+    let ts = t_scale(spec, model, x);
+    let mut t = 0.0;
+    let mut p = 0.0;
+    for i in 0..spec.n() {
+        match crit(spec, model, i) {
+            Some([tc, pc, _]) => {
+                // model::pure_tc floors the critical temperature with the non-associating estimate
+                // 1.3 eps/k (1 + 0.1 (m-1)) against spurious low-temperature solutions; a converged
+                // critical point more than 20 % below that floor is not trusted as a scale
+                let tci = pure_tc(spec, model, i);
+                if tc < 0.8 * tci && spec.family != Family::PengRobinson {
+                    exact = false;
+                    t += x[i] * tci;
+                    p += x[i] * 0.07 * rho_max * tci;
+                } else {
+                    t += x[i] * tc;
+                    p += x[i] * pc;
+                }
+            }
+            None => {
+                exact = false;
+                t += x[i] * pure_tc(spec, model, i);
+                p += x[i] * 0.07 * rho_max * ts;
+            }
+        }
+    }
+    (t, p, exact)
+}
+
+fn ions(spec: &ModelSpec) -> bool {
+    spec.family == Family::EPcSaft && spec.source.starts_with("shipped")
+}
+
+// ---------------------------------------------------------------------------------------
+// Shared oracles on a returned state
+// ---------------------------------------------------------------------------------------
+/// redundant fields of a state are mutually consistent and T, V, N are finite and not negative
+fn check_consistency<E: Residual>(obs: &mut Obs, st: &State<E>) {
+    let t = st.temperature.to_reduced();
+    let v = st.volume.to_reduced();
+    let n = st.moles.to_reduced();
+    let nt = st.total_moles.to_reduced();
+    obs.ensure(t.is_finite() && !(t < 0.0), || format!("returned state has temperature {t:e}"));
+    obs.ensure(v.is_finite() && !(v < 0.0), || format!("returned state has volume {v:e}"));
+    obs.ensure(n.iter().all(|m| m.is_finite() && !(*m < 0.0)), || format!("returned state has moles {n:?}"));
+    obs.ensure(n.len() == st.eos.components(), || {
+        format!("returned state has {} mole numbers for {} components", n.len(), st.eos.components())
+    });
+    if !(t > 0.0 && v > 0.0 && nt > 0.0 && t.is_finite() && v.is_finite() && nt.is_finite()) {
+        return; // zero values: the property is silent
+    }
+    let rho = st.density.to_reduced();
+    within(obs, "consistency", "total_moles == sum moles", nt, n.sum(), RTOL_ECHO * nt);
+    within(obs, "consistency", "density == total_moles/volume", rho, nt / v, RTOL_ECHO * rho.abs());
+    let pd = st.partial_density.to_reduced();
+    obs.ensure(pd.len() == n.len() && st.molefracs.len() == n.len(), || "array lengths differ".to_string());
+    if pd.len() == n.len() && st.molefracs.len() == n.len() {
+        for i in 0..n.len() {
+            within(obs, "consistency", "partial_density == moles/volume", pd[i], n[i] / v, RTOL_ECHO * rho.abs());
+            within(obs, "consistency", "molefracs == moles/total_moles", st.molefracs[i], n[i] / nt, RTOL_ECHO);
+        }
+    }
+}
+
+/// tolerance of the pressure specification for the returned state
+fn p_tol<E: Residual>(st: &State<E>, p: f64) -> f64 {
+    let rho = st.density.to_reduced();
+    let t = st.temperature.to_reduced();
+    let s = rho * t + contrib_abs(st, PD::First(DV));
+    RTOL_P * p.abs() + ATOL_P + ROUND_P * s
+}
+
+// ---------------------------------------------------------------------------------------
+// Signature of the known finding `C03/density-iteration-nonconvergence`
+//
+// `density_iteration` (feos-core/src/density_iteration.rs) returns `Ok(state)` when its 50
+// iterations are exhausted, because the non-convergence test `iterations == maxiter + 1` (line 132)
+// can never be true. To recognise *exactly* this cause - and nothing else - the control flow of
+// `density_iteration` and `pressure_spinodal` at the pinned commit is replicated below with one
+// difference: it reports whether the loop was left through the convergence `break`. A pressure
+// mismatch is attributed to the known finding only if the replica, started from the start density
+// that the `DensityInitialization` implies, exhausts its iterations *and* ends at the density of
+// the returned state. The replica is a classifier of failures, never an oracle.
+//
+// Where the start density is not observable (inside the Newton wrappers new_nph/new_nps) two
+// physical signatures are used instead: the harness scan finds no mechanically stable root of
+// p(rho) = p up to 1.5 max_density, or a negative pressure was requested and the returned density
+// collapsed below 1e-20 max_density (step limiter -0.95 rho applied ~50 times: 0.05^50 = 1e-65).
+// ---------------------------------------------------------------------------------------
+type DpDrho = <Pressure as std::ops::Div<Density>>::Output;
+type D2pDrho2 = <DpDrho as std::ops::Div<Density>>::Output;
+
+fn r_d2pdrho2<E: Residual>(
+    eos: &Arc<E>,
+    t: Temperature,
+    moles: &Moles<Array1<f64>>,
+    rho: Density,
+) -> EosResult<(Pressure, DpDrho, D2pDrho2)> {
+    let s = State::new_nvt(eos, t, moles.sum() / rho, moles)?;
+    let d2p_dv2 = s.d2p_dv2(TOT);
+    let dp_dv = s.dp_dv(TOT);
+    Ok((
+        s.pressure(TOT),
+        (-s.volume * dp_dv / s.density),
+        (s.volume / (s.density * s.density) * (2.0 * dp_dv + s.volume * d2p_dv2)),
+    ))
+}
+
+fn r_p_dpdrho<E: Residual>(
+    eos: &Arc<E>,
+    t: Temperature,
+    moles: &Moles<Array1<f64>>,
+    rho: Density,
+) -> EosResult<(Pressure, DpDrho)> {
+    let s = State::new_nvt(eos, t, moles.sum() / rho, moles)?;
+    let dp_dv = s.dp_dv(TOT);
+    Ok((s.pressure(TOT), (-s.volume * dp_dv / s.density)))
+}
+
+fn r_pressure_spinodal<E: Residual>(
+    eos: &Arc<E>,
+    temperature: Temperature,
+    rho_init: Density,
+    moles: &Moles<Array1<f64>>,
+) -> EosResult<(Pressure, Density)> {
+    let maxiter = 30;
+    let abstol = 1e-8;
+    let maxdensity = eos.max_density(Some(moles))?;
+    let mut rho = rho_init;
+    if rho <= Density::from_reduced(0.0) {
+        return Err(EosError::IterationFailed("replica".into()));
+    }
+    for _ in 0..maxiter {
+        let (p, dpdrho, d2pdrho2) = r_d2pdrho2(eos, temperature, moles, rho)?;
+        let mut delta_rho = -dpdrho / d2pdrho2;
+        if delta_rho.abs() > 0.05 * maxdensity {
+            delta_rho = 0.05 * maxdensity * delta_rho.signum()
+        }
+        delta_rho = delta_rho.max(-rho * 0.95);
+        delta_rho = delta_rho.min(maxdensity - rho);
+        rho += delta_rho;
+        if dpdrho.to_reduced().abs() < abstol {
+            return Ok((p, rho));
+        }
+    }
+    Err(EosError::NotConverged("replica pressure_spinodal".to_owned()))
+}
+
+enum Exit {
+    Converged,
+    Exhausted(Density),
+}
+
+fn r_density_iteration<E: Residual>(
+    eos: &Arc<E>,
+    temperature: Temperature,
+    pressure: Pressure,
+    moles: &Moles<Array1<f64>>,
+    initial_density: Density,
+) -> EosResult<Exit> {
+    let maxdensity = eos.max_density(Some(moles))?;
+    let (abstol, reltol) = (1e-12, 1e-14);
+    let mut rho = initial_density;
+    if rho <= Density::from_reduced(0.0) {
+        return Err(EosError::IterationFailed("replica".into()));
+    }
+    let maxiter = 50;
+    let mut converged = false;
+    'iteration: for k in 0..maxiter {
+        let (mut p, mut dp_drho) = r_p_dpdrho(eos, temperature, moles, rho)?;
+        if dp_drho.is_sign_negative() && k == 0 {
+            rho = if initial_density <= 0.15 * maxdensity {
+                0.05 * initial_density
+            } else {
+                (1.1 * initial_density).min(maxdensity)
+            };
+            let p_ = r_p_dpdrho(eos, temperature, moles, rho)?;
+            p = p_.0;
+            dp_drho = p_.1;
+        }
+        let mut error = p - pressure;
+        let mut delta_rho = -error / dp_drho;
+        if delta_rho.abs() > 0.075 * maxdensity {
+            delta_rho = 0.075 * maxdensity * delta_rho.signum();
+        };
+        delta_rho = delta_rho.max(-0.95 * rho);
+        if dp_drho.is_sign_negative() && k < maxiter {
+            let d2pdrho2 = r_d2pdrho2(eos, temperature, moles, rho)?.2;
+            if rho > 0.85 * maxdensity {
+                let (sp_p, sp_rho) = r_pressure_spinodal(eos, temperature, initial_density, moles)?;
+                rho = sp_rho;
+                error = sp_p - pressure;
+                if rho > 0.85 * maxdensity {
+                    if error.is_sign_negative() {
+                        return Err(EosError::IterationFailed(String::from("replica")));
+                    } else {
+                        rho *= 0.98
+                    }
+                } else if error.is_sign_positive() {
+                    rho = 0.001 * maxdensity
+                } else {
+                    rho = (rho * 1.1).min(maxdensity)
+                }
+            } else if error.is_sign_positive() && d2pdrho2.is_sign_positive() {
+                let (sp_p, sp_rho) = r_pressure_spinodal(eos, temperature, initial_density, moles)?;
+                rho = sp_rho;
+                error = sp_p - pressure;
+                if error.is_sign_positive() {
+                    rho = 0.001 * maxdensity
+                } else {
+                    rho = (rho * 1.1).min(maxdensity)
+                }
+            } else if error.is_sign_negative() && d2pdrho2.is_sign_negative() {
+                let (sp_p, sp_rho) = r_pressure_spinodal(eos, temperature, initial_density, moles)?;
+                rho = sp_rho;
+                error = sp_p - pressure;
+                if error.is_sign_negative() {
+                    rho = 0.8 * maxdensity
+                } else {
+                    rho *= 0.8
+                }
+            } else if error.is_sign_negative() && d2pdrho2.is_sign_positive() {
+                let (_, rho_l) = r_pressure_spinodal(eos, temperature, 0.8 * maxdensity, moles)?;
+                let (sp_v_p, rho_v) = r_pressure_spinodal(eos, temperature, 0.001 * maxdensity, moles)?;
+                error = sp_v_p - pressure;
+                if error.is_sign_positive() && (initial_density - rho_v).abs() < (initial_density - rho_l).abs() {
+                    rho = 0.8 * rho_v
+                } else {
+                    rho = (rho_l * 1.1).min(maxdensity)
+                }
+            } else if error.is_sign_positive() && d2pdrho2.is_sign_negative() {
+                let (_, rho_l) = r_pressure_spinodal(eos, temperature, 0.8 * maxdensity, moles)?;
+                let (sp_v_p, rho_v) = r_pressure_spinodal(eos, temperature, 0.001 * maxdensity, moles)?;
+                error = sp_v_p - pressure;
+                if error.is_sign_negative() && (initial_density - rho_v).abs() > (initial_density - rho_l).abs() {
+                    rho = (rho_l * 1.1).min(maxdensity)
+                } else {
+                    rho = 0.8 * rho_v
+                }
+            } else {
+                rho = (rho + initial_density) * 0.5;
+                if (rho - initial_density).to_reduced().abs() < 1e-8 {
+                    rho = (rho + 0.1 * maxdensity).min(maxdensity)
+                }
+            }
+            continue 'iteration;
+        }
+        rho += delta_rho;
+        if error.to_reduced().abs() < f64::max(abstol, (rho * reltol).to_reduced()) {
+            converged = true;
+            break 'iteration;
+        }
+    }
+    Ok(if converged { Exit::Converged } else { Exit::Exhausted(rho) })
+}
+
+/// How the density iteration that produced a state was started (what the harness knows about it).
+#[derive(Clone, Copy, Debug)]
+enum Start {
+    /// `State::new_npt` with this initialisation (Rho: absolute start density, reduced units)
+    Npt(Init, f64),
+    /// inside a Newton wrapper: not observable
+    Unknown,
+}
+
+fn exhausted_iteration<E: Residual>(st: &State<E>, p: f64, start: Start) -> Option<&'static str> {
+    let rho_max = st.eos.max_density(Some(&st.moles)).ok()?;
+    let rho = st.density.to_reduced();
+    if let Start::Npt(init, rho0) = start {
+        let pq = Pressure::from_reduced(p);
+        let t = st.temperature;
+        let starts: Vec<Density> = match init {
+            Init::None => vec![rho_max, pq / t / RGAS],
+            Init::Vapor => vec![pq / t / RGAS],
+            Init::Liquid => vec![rho_max],
+            Init::Rho(_) => vec![Density::from_reduced(rho0)],
+        };
+        for s0 in starts {
+            let r = catch_unwind(AssertUnwindSafe(|| r_density_iteration(&st.eos, t, pq, &st.moles, s0)));
+            if let Ok(Ok(Exit::Exhausted(end))) = r {
+                if (end.to_reduced() - rho).abs() <= 1e-9 * rho.abs() {
+                    return Some("replica of density_iteration exhausts its 50 iterations and ends at the returned density");
+                }
+            }
+        }
+        return None;
+    }
+    let hi = 1.5 * rho_max.to_reduced();
+    if !(rho <= hi) {
+        return None;
+    }
+    if p < 0.0 && rho < 1e-20 * rho_max.to_reduced() {
+        return Some("negative pressure requested, returned density collapsed below 1e-20 max_density");
+    }
+    let scan = scan_roots(&st.eos, st.temperature, &st.moles, p, hi, &[]);
+    if !scan.roots.iter().any(|r| r.stable) {
+        return Some("p(rho) = p has no mechanically stable root up to 1.5 max_density");
+    }
+    None
+}
+
+fn check_pressure<E: Residual>(obs: &mut Obs, key: &str, st: &State<E>, p: f64, start: Start) -> bool {
+    let ps = st.pressure(TOT).to_reduced();
+    let tol = p_tol(st, p);
+    // a converged iteration is orders of magnitude inside the tolerance (measured < 1e-3 tol);
+    // anything above 1 % of it is examined for the signature of the known finding
+    if !((ps - p).abs() <= 0.01 * tol) {
+        if let Some(why) = exhausted_iteration(st, p, start) {
+            if (ps - p).abs() <= tol {
+                obs.count();
+                obs.class("exhausted density iteration, pressure still within tolerance");
+                return true;
+            }
+            obs.count();
+            obs.class(format!("known: Ok(state) from an exhausted density iteration ({why})"));
+            obs.known_or_fail(
+                "C03/density-iteration-nonconvergence",
+                format!(
+                    "requested p = {p:e} K/A^3 at T = {} ({start:?}) answered with Ok(state) of density {:e} /A^3 = {:.4} max_density and pressure {ps:e} K/A^3: {why}",
+                    st.temperature,
+                    st.density.to_reduced(),
+                    st.density.to_reduced() / st.eos.max_density(Some(&st.moles)).map_or(f64::NAN, |m| m.to_reduced()),
+                ),
+            );
+            return false;
+        }
+    }
+    within(obs, key, "pressure(state) == specified pressure", ps, p, tol)
+}
+
+// ---------------------------------------------------------------------------------------
+// Independent root search of p(rho) = p at fixed T, x
+// ---------------------------------------------------------------------------------------
+#[derive(Clone, Debug)]
+struct Root {
+    rho: f64,
+    stable: bool,
+    g: f64,
+}
+
+fn eval_state<E: Residual>(eos: &Arc<E>, t: Temperature, moles: &Moles<Array1<f64>>, rho: f64) -> Option<State<E>> {
+    if !(rho > 0.0) || !rho.is_finite() {
+        return None;
+    }
+    State::new_nvt(eos, t, moles.sum() / Density::from_reduced(rho), moles).ok()
+}
+
+fn eval_p<E: Residual>(eos: &Arc<E>, t: Temperature, moles: &Moles<Array1<f64>>, rho: f64) -> f64 {
+    eval_state(eos, t, moles, rho).map_or(f64::NAN, |s| s.pressure(TOT).to_reduced())
+}
+
+/// molar Gibbs function at the *specified* pressure up to terms that depend on T and x only:
+/// g/k = a_res + T ln rho + p/rho. Its stationary points in rho are the roots of p(rho) = p.
+fn eval_g<E: Residual>(eos: &Arc<E>, t: Temperature, moles: &Moles<Array1<f64>>, rho: f64, p: f64) -> f64 {
+    match eval_state(eos, t, moles, rho) {
+        Some(s) => {
+            let a = s.residual_helmholtz_energy().to_reduced() / s.total_moles.to_reduced();
+            a + t.to_reduced() * rho.ln() + p / rho
+        }
+        None => f64::NAN,
+    }
+}
+
+struct Scan {
+    roots: Vec<Root>,
+    /// number of changes of the sign of dp/drho along the grid (0: monotone, 2: one van der Waals
+    /// loop, more: several loops - "vapour" and "liquid" branch are then ambiguous)
+    extrema: usize,
+    /// p(rho_max) < p: a root beyond the scanned range is possible
+    beyond: bool,
+    nan: usize,
+    evals: usize,
+}
+
+/// Grid: log-spaced (16 per decade) from min(1e-8 rho_max, 0.1 p/T) to 0.02 rho_max, then linear
+/// in steps of 0.0061 rho_max up to rho_max, plus `extra` points; bisection of every sign change.
+fn scan_roots<E: Residual>(
+    eos: &Arc<E>,
+    t: Temperature,
+    moles: &Moles<Array1<f64>>,
+    p: f64,
+    rho_max: f64,
+    extra: &[f64],
+) -> Scan {
+    let tr = t.to_reduced();
+    let mut lo = 1e-8 * rho_max;
+    if p > 0.0 && tr > 0.0 {
+        lo = lo.min(0.1 * p / tr);
+    }
+    lo = lo.max(1e-14 * rho_max);
+    let knee = 0.02 * rho_max;
+    let mut grid: Vec<f64> = vec![];
+    if lo < knee {
+        let n = (((knee / lo).log10() * 16.0).ceil() as usize).clamp(2, 400);
+        for k in 0..n {
+            grid.push(lo * (knee / lo).powf(k as f64 / n as f64));
+        }
+    }
+    let nlin = 160;
+    for k in 0..=nlin {
+        grid.push(knee + (rho_max - knee) * k as f64 / nlin as f64);
+    }
+    for &e in extra {
+        if e > lo && e < rho_max && e.is_finite() {
+            grid.push(e);
+        }
+    }
+    grid.sort_by(|a, b| a.partial_cmp(b).unwrap());
+    grid.dedup();
+    let mut evals = 0;
+    let mut nan = 0;
+    let f: Vec<f64> = grid
+        .iter()
+        .map(|&r| {
+            evals += 1;
+            let v = eval_p(eos, t, moles, r) - p;
+            if !v.is_finite() {
+                nan += 1;
+            }
+            v
+        })
+        .collect();
+    let mut roots = vec![];
+    for k in 0..grid.len() - 1 {
+        let (fa, fb) = (f[k], f[k + 1]);
+        if !fa.is_finite() || !fb.is_finite() {
+            continue;
+        }
+        if fa == 0.0 || (fa < 0.0) != (fb < 0.0) {
+            let (mut a, mut b) = (grid[k], grid[k + 1]);
+            let neg_left = fa < 0.0;
+            if fa != 0.0 {
+                for _ in 0..48 {
+                    let m = 0.5 * (a + b);
+                    if m <= a || m >= b {
+                        break;
+                    }
+                    evals += 1;
+                    let fm = eval_p(eos, t, moles, m) - p;
+                    if !fm.is_finite() {
+                        break;
+                    }
+                    if (fm < 0.0) == neg_left {
+                        a = m;
+                    } else {
+                        b = m;
+                    }
+                }
+            } else {
+                b = a;
+            }
+            let rho = 0.5 * (a + b);
+            let stable = if fa == 0.0 { fb > 0.0 } else { neg_left };
+            roots.push(Root {
+                rho,
+                stable,
+                g: eval_g(eos, t, moles, rho, p),
+            });
+        }
+    }
+    let beyond = f.last().is_some_and(|v| *v < 0.0);
+    let mut extrema = 0;
+    let mut last = 0i8;
+    for k in 0..grid.len() - 1 {
+        let (fa, fb) = (f[k], f[k + 1]);
+        if !fa.is_finite() || !fb.is_finite() {
+            continue;
+        }
+        let d = fb - fa;
+        if d.abs() <= 1e-12 * (fa.abs() + fb.abs() + p.abs()) {
+            continue;
+        }
+        let sgn = if d > 0.0 { 1 } else { -1 };
+        if last != 0 && sgn != last {
+            extrema += 1;
+        }
+        last = sgn;
+    }
+    Scan {
+        roots,
+        extrema,
+        beyond,
+        nan,
+        evals,
+    }
+}
+
+fn pattern(roots: &[Root]) -> String {
+    roots.iter().map(|r| if r.stable { 'S' } else { 'U' }).collect()
+}
+
+// ---------------------------------------------------------------------------------------
+// Part (b): T-p construction
+// ---------------------------------------------------------------------------------------
+#[derive(Serialize, Deserialize, Clone, Copy, Debug, PartialEq)]
+pub enum Init {
+    None,
+    Vapor,
+    Liquid,
+    /// InitialDensity(f * max_density) in `tp`, InitialDensity(f * source density) in `iter`/`echo`
+    Rho(f64),
+}
+
+impl Init {
+    fn label(&self) -> &'static str {
+        match self {
+            Init::None => "hint=None",
+            Init::Vapor => "hint=Vapor",
+            Init::Liquid => "hint=Liquid",
+            Init::Rho(_) => "hint=InitialDensity",
+        }
+    }
+    fn to_feos(self, rho_ref: f64) -> DensityInitialization {
+        match self {
+            Init::None => DensityInitialization::None,
+            Init::Vapor => DensityInitialization::Vapor,
+            Init::Liquid => DensityInitialization::Liquid,
+            Init::Rho(f) => DensityInitialization::InitialDensity(Density::from_reduced(f * rho_ref)),
+        }
+    }
+}
+
+fn gen_init(g: &mut Gen, lo: f64, hi: f64) -> Init {
+    match g.index(4) {
+        0 => Init::None,
+        1 => Init::Vapor,
+        2 => Init::Liquid,
+        _ => Init::Rho(g.log_range(lo, hi)),
+    }
+}
+
+#[derive(Serialize, Deserialize, Clone, Debug)]
+pub struct TpCase {
+    pub spec: ModelSpec,
+    pub x: Vec<f64>,
+    /// total amount (mol)
+    pub lambda: f64,
+    /// T / T_scale (ion-containing ePC-SAFT: mapped to 280..370 K)
+    pub t_red: f64,
+    /// p / p_scale
+    pub p_red: f64,
+    pub init: Init,
+    /// success clause: construction must not fail
+    pub must_succeed: bool,
+}
+
+const GS_FILES: usize = 5; // first five entries of model::PCSAFT_FILES
+
+fn gs_spec(file: usize, idx: usize) -> ModelSpec {
+    let (name, recs) = &POOLS.pcsaft[file];
+    ModelSpec {
+        family: Family::PcSaft,
+        pure: vec![recs[idx].clone()],
+        binary: vec![],
+        seg: None,
+        opts: Opts::default(),
+        source: format!("shipped:{name}"),
+    }
+}
+
+pub fn decode_tp(g: &mut Gen) -> TpCase {
+    let spec = gen_model(g, &GenCfg::all(3));
+    let x = g.simplex(spec.n(), 1e-3);
+    // a third of the cases close to the critical temperature / saturation region
+    let t_red = match g.index(3) {
+        0 => g.range(0.45, 2.0),
+        1 => g.range(0.45, 1.0),
+        _ => g.range(0.85, 1.1),
+    };
+    let p_red = g.log_range(1e-4, 1e2);
+    let init = gen_init(g, 1e-7, 1.05);
+    TpCase {
+        spec,
+        x,
+        lambda: g.log_range(1e-3, 1e3),
+        t_red,
+        p_red,
+        init,
+        must_succeed: false,
+    }
+}
+
+pub fn decode_gs_box(g: &mut Gen) -> TpCase {
+    let file = g.index(GS_FILES);
+    let idx = g.index(POOLS.pcsaft[file].1.len());
+    let t_red = if g.bool(0.5) { g.range(0.45, 1.65) } else { g.range(0.6, 1.02) };
+    // half of the sub-critical cases within a factor 3 of the Clausius-Clapeyron-like estimate
+    // of the saturation pressure ln(p/pc) ~ 7 (1 - Tc/T), where both roots exist
+    let p_red = if t_red < 1.0 && g.bool(0.6) {
+        let ps = (7.0 * (1.0 - 1.0 / t_red)).exp();
+        (ps * g.log_range(1.0 / 3.0, 3.0)).clamp(1e-4, 10.0)
+    } else {
+        g.log_range(1e-4, 10.0)
+    };
+    let init = match g.index(3) {
+        0 => Init::None,
+        1 => Init::Vapor,
+        _ => Init::Liquid,
+    };
+    TpCase {
+        spec: gs_spec(file, idx),
+        x: vec![1.0],
+        lambda: g.log_range(1e-3, 1e3),
+        t_red,
+        p_red,
+        init,
+        must_succeed: true,
+    }
+}
+
+struct TpSetup {
+    model: Arc<Model>,
+    t: Temperature,
+    p: f64,
+    moles: Moles<Array1<f64>>,
+    rho_max: f64,
+}
+
+fn tp_setup(case: &TpCase, obs: &mut Obs) -> Option<TpSetup> {
+    let spec = &case.spec;
+    let model = match spec.build() {
+        Ok(m) => m,
+        Err(e) => {
+            obs.discard(format!("build:{}", e.chars().take(40).collect::<String>()));
+            return None;
+        }
+    };
+    let mut x = case.x.clone();
+    neutralise(spec, &mut x);
+    let moles = Array1::from_vec(x.iter().map(|xi| xi * case.lambda).collect()) * MOL;
+    let rho_max = match model.max_density(Some(&moles)) {
+        Ok(r) => r.to_reduced(),
+        Err(e) => {
+            obs.discard(format!("max_density:{}", err_label(&e)));
+            return None;
+        }
+    };
+    let (ts, ps, exact) = tp_scales(spec, &model, &x, rho_max);
+    if case.must_succeed && !exact {
+        obs.inconclusive(format!(
+            "no converged critical point for the record: box undefined ({})",
+            spec.pure[0]["identifier"]["name"].as_str().unwrap_or("?")
+        ));
+        return None;
+    }
+    let t = if ions(spec) {
+        280.0 + (case.t_red - 0.45) / 1.55 * 90.0
+    } else {
+        case.t_red * ts
+    };
+    Some(TpSetup {
+        model,
+        t: Temperature::from_reduced(t),
+        p: case.p_red * ps,
+        moles,
+        rho_max,
+    })
+}
+
+/// (T [K], p [K/A^3], max_density [1/A^3]) of a T-p case (for debugging and external drivers)
+pub fn tp_conditions(case: &TpCase) -> Option<(f64, f64, f64)> {
+    let mut obs = Obs::default();
+    tp_setup(case, &mut obs).map(|su| (su.t.to_reduced(), su.p, su.rho_max))
+}
+
+pub fn check_tp(case: &TpCase, obs: &mut Obs) {
+    let spec = &case.spec;
+    obs.class(spec.label());
+    obs.class(format!("n={}", spec.n()));
+    obs.class(case.init.label());
+    if spec.has_association() {
+        obs.class("assoc");
+    }
+    if spec.has_polar() {
+        obs.class("polar");
+    }
+    let Some(su) = tp_setup(case, obs) else { return };
+    let TpSetup {
+        model,
+        t,
+        p,
+        moles,
+        rho_max,
+    } = su;
+    let pq = Pressure::from_reduced(p);
+    let res = State::new_npt(&model, t, pq, &moles, case.init.to_feos(rho_max));
+    let tr = t.to_reduced();
+    let mut extra = vec![];
+    if let Ok(st) = &res {
+        let r = st.density.to_reduced();
+        extra.extend([r * (1.0 - 1e-4), r * (1.0 + 1e-4)]);
+    }
+    if let Init::Rho(f) = case.init {
+        extra.push(f * rho_max);
+    }
+    let scan = scan_roots(&model, t, &moles, p, rho_max, &extra);
+    let pat = pattern(&scan.roots);
+    obs.class(format!(
+        "roots={}{}",
+        if pat.len() > 5 { "many" } else { &pat },
+        if scan.beyond { "+beyond" } else { "" }
+    ));
+    let single_loop = scan.extrema <= 2;
+    if !single_loop {
+        obs.class("multi-loop isotherm (branch and Gibbs clauses not asserted)");
+    }
+    let two_branches = pat == "SUS" && single_loop;
+    // started on the other side of the unstable region (or inside it)?
+    let mut wrong_side = false;
+    match res {
+        Err(e) => {
+            obs.class(format!("err:{}", err_label(&e)));
+            if case.must_succeed {
+                obs.fail(format!(
+                    "construction failed inside the success box: {e} (T={tr:.4} K, p={p:e}, roots {pat})"
+                ));
+            } else if scan.roots.iter().any(|r| r.stable) {
+                obs.class("err although a stable root exists below max_density");
+            }
+        }
+        Ok(st) => {
+            obs.class("ok");
+            obs.ensure(st.temperature == t, || format!("temperature not echoed: {} vs {}", st.temperature, t));
+            obs.ensure(st.moles == moles, || format!("moles not echoed: {} vs {}", st.moles, moles));
+            check_consistency(obs, &st);
+            let p_ok = check_pressure(obs, "tp:pressure", &st, p, Start::Npt(case.init, match case.init { Init::Rho(f) => f * rho_max, _ => 0.0 }));
+            let rho = st.density.to_reduced();
+            if let (Init::Rho(f), true) = (case.init, two_branches) {
+                let ru = scan.roots[1].rho;
+                wrong_side = (f * rho_max < ru) != (rho < ru);
+                if wrong_side {
+                    obs.class("started across the unstable root");
+                }
+            }
+            if p_ok && rho <= rho_max * (1.0 + 1e-9) {
+                // the library root must be one of the scanned roots (the scan brackets it)
+                let near = scan
+                    .roots
+                    .iter()
+                    .map(|r| (r.rho - rho).abs() / rho)
+                    .fold(f64::INFINITY, f64::min);
+                if near > 2e-4 {
+                    obs.inconclusive("library root not bracketed by the scan (flat p(rho))");
+                } else {
+                    let g_lib = eval_g(&model, t, &moles, rho, p);
+                    match case.init {
+                        Init::None if single_loop && (pat == "S" || pat == "SUS") => {
+                            let (rb, gb) = scan
+                                .roots
+                                .iter()
+                                .filter(|r| r.stable)
+                                .map(|r| (r.rho, r.g))
+                                .fold((f64::NAN, f64::INFINITY), |a, b| if b.1 < a.1 { b } else { a });
+                            obs.count();
+                            track("tp:gibbs-excess/T", (g_lib - gb) / tr / TIE_G, || format!("g_lib {g_lib:e} g_best {gb:e}"));
+                            if !(g_lib <= gb + TIE_G * tr) {
+                                obs.fail(format!(
+                                    "no hint: returned root rho={rho:e} has g/k={g_lib:.9e} K, but the root rho={rb:e} has lower g/k={gb:.9e} K (T={tr:.4} K, p={p:e}, roots {pat})"
+                                ));
+                            }
+                        }
+                        Init::Vapor if two_branches => {
+                            let ru = scan.roots[1].rho;
+                            obs.ensure(rho < ru, || {
+                                format!("Vapor hint: returned rho={rho:e} is above the unstable root {ru:e}; vapour root {:e} exists (T={tr:.4} K, p={p:e})", scan.roots[0].rho)
+                            });
+                        }
+                        Init::Liquid if two_branches => {
+                            let ru = scan.roots[1].rho;
+                            obs.ensure(rho > ru, || {
+                                format!("Liquid hint: returned rho={rho:e} is below the unstable root {ru:e}; liquid root {:e} exists (T={tr:.4} K, p={p:e})", scan.roots[2].rho)
+                            });
+                        }
+                        _ => {}
+                    }
+                }
+            } else if p_ok {
+                obs.class("ok: root above max_density");
+            }
+        }
+    }
+    let near_crit = (0.9..1.1).contains(&case.t_red) && (1.0 / 3.0..3.0).contains(&case.p_red);
+    if two_branches {
+        obs.class("both branches exist");
+    }
+    if near_crit {
+        obs.class("near critical");
+    }
+    if two_branches || near_crit || wrong_side {
+        obs.nontrivial();
+    }
+    let _ = (scan.nan, scan.evals);
+}
+
+// ---------------------------------------------------------------------------------------
+// Success lattice over the Gross-Sadowski collections
+// ---------------------------------------------------------------------------------------
+#[derive(Serialize, Deserialize, Clone, Debug)]
+pub struct GsCase {
+    pub file: usize,
+    pub idx: usize,
+    pub name: String,
+    pub t_red: f64,
+    pub p_red: f64,
+}
+
+pub const GS_NT: usize = 20;
+pub const GS_NP: usize = 30;
+
+fn gs_items() -> Vec<GsCase> {
+    let mut v = vec![];
+    for file in 0..GS_FILES {
+        for (idx, rec) in POOLS.pcsaft[file].1.iter().enumerate() {
+            let name = rec["identifier"]["name"].as_str().unwrap_or("?").to_string();
+            for it in 0..GS_NT {
+                let t_red = 0.45 + 1.2 * it as f64 / (GS_NT - 1) as f64;
+                for ip in 0..GS_NP {
+                    let p_red = 10f64.powf(-4.0 + 5.0 * ip as f64 / (GS_NP - 1) as f64);
+                    v.push(GsCase {
+                        file,
+                        idx,
+                        name: name.clone(),
+                        t_red,
+                        p_red,
+                    });
+                }
+            }
+        }
+    }
+    v
+}
+
+pub fn check_gs(case: &GsCase, obs: &mut Obs) {
+    let spec = gs_spec(case.file, case.idx);
+    obs.class(POOLS.pcsaft[case.file].0);
+    if spec.has_association() {
+        obs.class("assoc");
+    }
+    if spec.has_polar() {
+        obs.class("polar");
+    }
+    let tp = TpCase {
+        spec,
+        x: vec![1.0],
+        lambda: 1.0,
+        t_red: case.t_red,
+        p_red: case.p_red,
+        init: Init::None,
+        must_succeed: true,
+    };
+    let Some(su) = tp_setup(&tp, obs) else { return };
+    let tr = su.t.to_reduced();
+    let pq = Pressure::from_reduced(su.p);
+    let mut got: Vec<Option<(f64, f64)>> = vec![];
+    for init in [Init::None, Init::Vapor, Init::Liquid] {
+        match State::new_npt(&su.model, su.t, pq, &su.moles, init.to_feos(su.rho_max)) {
+            Err(e) => {
+                obs.fail(format!(
+                    "{}: construction failed inside the success box: {e} ({} T={tr:.4} K = {:.4} Tc, p = {:.4e} pc)",
+                    init.label(),
+                    case.name,
+                    case.t_red,
+                    case.p_red
+                ));
+                got.push(None);
+            }
+            Ok(st) => {
+                obs.ensure(st.temperature == su.t, || "temperature not echoed".to_string());
+                obs.ensure(st.moles == su.moles, || "moles not echoed".to_string());
+                check_consistency(obs, &st);
+                check_pressure(obs, "gs:pressure", &st, su.p, Start::Npt(init, 0.0));
+                let rho = st.density.to_reduced();
+                got.push(Some((rho, eval_g(&su.model, su.t, &su.moles, rho, su.p))));
+            }
+        }
+    }
+    // differential: when the two hinted constructions found different roots, the un-hinted one
+    // must be the one of lower Gibbs energy
+    if let (Some(n), Some(v), Some(l)) = (got[0], got[1], got[2]) {
+        if (l.0 - v.0) > 1e-3 * l.0 {
+            obs.class("two branches");
+            obs.nontrivial();
+            obs.count();
+            let gb = v.1.min(l.1);
+            track("gs:gibbs-excess/T", (n.1 - gb) / tr / TIE_G, || format!("{} {n:?} {v:?} {l:?}", case.name));
+            if !(n.1 <= gb + TIE_G * tr) {
+                obs.fail(format!(
+                    "no hint returned rho={:e} (g/k={:.9e}) although the hinted constructions found rho_v={:e} (g/k={:.9e}) and rho_l={:e} (g/k={:.9e}) ({} T={tr:.4} K, p={:e})",
+                    n.0, n.1, v.0, v.1, l.0, l.1, case.name, su.p
+                ));
+            }
+        } else {
+            obs.class("one branch");
+            if (0.9..1.1).contains(&case.t_red) && (1.0 / 3.0..3.0).contains(&case.p_red) {
+                obs.nontrivial();
+            }
+        }
+    }
+}
+
+// ---------------------------------------------------------------------------------------
+// Part (c): iterative targets
+// ---------------------------------------------------------------------------------------
+#[derive(Serialize, Deserialize, Clone, Debug)]
+pub struct IterCase {
+    pub spec: ModelSpec,
+    pub state: StateSpec,
+    pub ig: Vec<usize>,
+    /// 0 (p,h)  1 (p,s)  2 (T,h)  3 (T,s)  4 (V,u)
+    pub kind: u8,
+    /// density initialisation; `Rho(f)`: f x density of the source state
+    pub init: Init,
+    /// initial temperature as a factor of the source temperature
+    pub t0: Option<f64>,
+}
+
+const KINDS: [&str; 5] = ["(p,h)", "(p,s)", "(T,h)", "(T,s)", "(V,u)"];
+
+pub fn decode_iter(g: &mut Gen) -> IterCase {
+    let spec = gen_model(g, &GenCfg::all(3));
+    let n = spec.n();
+    let tau = g.range(0.45, 2.0);
+    let u = g.unit();
+    let f_eta = if tau > 1.05 {
+        (1e-5f64.ln() + u * (0.9f64.ln() - 1e-5f64.ln())).exp()
+    } else if g.bool(0.5) {
+        0.6 + 0.32 * u
+    } else {
+        (1e-6f64.ln() + u * (0.02f64.ln() - 1e-6f64.ln())).exp()
+    };
+    let state = StateSpec {
+        tau,
+        f_eta,
+        x: g.simplex(n, 1e-3),
+        lambda: g.log_range(1e-3, 1e3),
+    };
+    let ig = (0..n).map(|_| g.index(POOLS.dippr.len())).collect();
+    let kind = g.index(5) as u8;
+    let init = gen_init(g, 0.5, 2.0);
+    let t0 = if g.bool(0.6) { Some(g.range(0.7, 1.4)) } else { None };
+    IterCase {
+        spec,
+        state,
+        ig,
+        kind,
+        init,
+        t0,
+    }
+}
+
+/// tolerance of a caloric target: NEWTON_FACTOR |df/dx| (atol + rtol |x|) + roundoff
+fn newton_tol(dfdx: f64, x: f64, atol: f64, value: f64, t: f64) -> f64 {
+    NEWTON_FACTOR * dfdx.abs() * (atol + NEWTON_RTOL * x.abs()) + ROUND_CAL * (value.abs() + t)
+}
+
+/// caloric target checks shared by `iter` and `echo`; kind as in `IterCase`
+fn check_caloric(obs: &mut Obs, st: &State<FullModel>, kind: u8, target: f64) {
+    let t = st.temperature.to_reduced();
+    let rho = st.density.to_reduced();
+    let v = st.volume.to_reduced();
+    let nt = st.total_moles.to_reduced();
+    let (what, val, dfdx, x, atol) = match kind {
+        0 => (
+            "molar_enthalpy",
+            st.molar_enthalpy(TOT).to_reduced(),
+            st.molar_isobaric_heat_capacity(TOT).to_reduced(),
+            t,
+            NEWTON_ATOL_T,
+        ),
+        1 => (
+            "molar_entropy",
+            st.molar_entropy(TOT).to_reduced(),
+            st.molar_isobaric_heat_capacity(TOT).to_reduced() / t,
+            t,
+            NEWTON_ATOL_T,
+        ),
+        2 => {
+            let d = -(v / rho) / nt * (v * st.dp_dv(TOT).to_reduced() + t * st.dp_dt(TOT).to_reduced());
+            ("molar_enthalpy", st.molar_enthalpy(TOT).to_reduced(), d, rho, NEWTON_ATOL_RHO)
+        }
+        3 => {
+            let d = -(v / rho) / nt * st.dp_dt(TOT).to_reduced();
+            ("molar_entropy", st.molar_entropy(TOT).to_reduced(), d, rho, NEWTON_ATOL_RHO)
+        }
+        _ => (
+            "molar_internal_energy",
+            st.molar_internal_energy(TOT).to_reduced(),
+            st.molar_isochoric_heat_capacity(TOT).to_reduced(),
+            t,
+            NEWTON_ATOL_T,
+        ),
+    };
+    if !dfdx.is_finite() {
+        obs.inconclusive("derivative of the target function is not finite at the returned state");
+        return;
+    }
+    let tol = newton_tol(dfdx, x, atol, target, t);
+    within(
+        obs,
+        &format!("caloric:{}", KINDS[kind as usize]),
+        &format!("{what}(state) == specified value {}", KINDS[kind as usize]),
+        val,
+        target,
+        tol,
+    );
+}
+
+pub fn check_iter(case: &IterCase, obs: &mut Obs) {
+    let spec = &case.spec;
+    let kind = case.kind.min(4);
+    obs.class(spec.label());
+    obs.class(KINDS[kind as usize]);
+    obs.class(format!("{} {}", KINDS[kind as usize], case.init.label()));
+    obs.class(if case.t0.is_some() { "T0 given" } else { "T0 default" });
+    let model = match spec.build() {
+        Ok(m) => m,
+        Err(e) => {
+            obs.discard(format!("build:{}", e.chars().take(40).collect::<String>()));
+            return;
+        }
+    };
+    let inputs = match state_inputs(spec, &model, &case.state) {
+        Ok(i) => i,
+        Err(e) => {
+            obs.discard(format!("inputs:{e}"));
+            return;
+        }
+    };
+    let ig = match dippr_model(&case.ig) {
+        Ok(m) => m,
+        Err(e) => {
+            obs.discard(format!("ig:{e}"));
+            return;
+        }
+    };
+    let eos = full_model(ig, model.clone());
+    let src = match build_state(&eos, &inputs) {
+        Ok(s) => s,
+        Err(e) => {
+            obs.discard(format!("state:{e}"));
+            return;
+        }
+    };
+    let p = src.pressure(TOT);
+    let pr = p.to_reduced();
+    let dpdv = src.dp_dv(TOT).to_reduced();
+    if !(dpdv < 0.0) || !(pr > 0.0) || !pr.is_finite() {
+        obs.discard("source state is not a stable single phase (dp/dV >= 0 or p <= 0)");
+        return;
+    }
+    let (t, v, moles) = (inputs.0, inputs.1, inputs.2.clone());
+    let h = src.molar_enthalpy(TOT);
+    let s = src.molar_entropy(TOT);
+    let u = src.molar_internal_energy(TOT);
+    if ![h.to_reduced(), s.to_reduced(), u.to_reduced()].iter().all(|q| q.is_finite()) {
+        obs.discard("source state has non-finite caloric properties");
+        return;
+    }
+    let init = case.init.to_feos(src.density.to_reduced());
+    let t0 = case.t0.map(|f| f * t);
+    let res: EosResult<State<FullModel>> = match kind {
+        0 => State::new_nph(&eos, p, h, &moles, init, t0),
+        1 => State::new_nps(&eos, p, s, &moles, init, t0),
+        2 => State::new_nth(&eos, t, h, &moles, init),
+        3 => State::new_nts(&eos, t, s, &moles, init),
+        _ => State::new_nvu(&eos, v, u, &moles, t0),
+    };
+    match res {
+        Err(e) => obs.class(format!("{} err:{}", KINDS[kind as usize], err_label(&e))),
+        Ok(st) => {
+            obs.class(format!("{} ok", KINDS[kind as usize]));
+            obs.ensure(st.moles == moles, || format!("moles not echoed: {} vs {}", st.moles, moles));
+            check_consistency(obs, &st);
+            let tr = t.to_reduced();
+            match kind {
+                0 | 1 => {
+                    check_pressure(obs, "iter:pressure", &st, pr, Start::Unknown);
+                }
+                2 | 3 => {
+                    obs.ensure(st.temperature == t, || format!("temperature not echoed: {} vs {}", st.temperature, t));
+                }
+                _ => {
+                    obs.ensure(st.volume == v, || format!("volume not echoed: {} vs {}", st.volume, v));
+                }
+            }
+            let target = match kind {
+                0 | 2 => h.to_reduced(),
+                1 | 3 => s.to_reduced(),
+                _ => u.to_reduced(),
+            };
+            check_caloric(obs, &st, kind, target);
+            // same solution as the source state?
+            let same = (st.temperature.to_reduced() - tr).abs() < 1e-6 * tr
+                && (st.density.to_reduced() / src.density.to_reduced() - 1.0).abs() < 1e-6;
+            obs.class(if same { "found the source state" } else { "found another solution" });
+            obs.nontrivial();
+        }
+    }
+}
+
+// ---------------------------------------------------------------------------------------
+// Part (a): echo / input subsets
+// ---------------------------------------------------------------------------------------
+const I_T: usize = 0;
+const I_V: usize = 1;
+const I_RHO: usize = 2;
+const I_RHOI: usize = 3;
+const I_N: usize = 4;
+const I_NI: usize = 5;
+const I_X: usize = 6;
+const I_P: usize = 7;
+const I_H: usize = 8;
+const I_S: usize = 9;
+const I_U: usize = 10;
+const I_T0: usize = 11;
+const N_IN: usize = 12;
+const IN_NAMES: [&str; N_IN] = ["T", "V", "rho", "rho_i", "N", "N_i", "x", "p", "h", "s", "u", "T0"];
+
+#[derive(Serialize, Deserialize, Clone, Copy, Debug, PartialEq)]
+pub enum Inj {
+    Nan,
+    PosInf,
+    NegInf,
+    Neg,
+    NegZero,
+    Zero,
+    /// arrays only: one element too few / too many
+    Shorter,
+    Longer,
+}
+
+#[derive(Serialize, Deserialize, Clone, Copy, Debug)]
+pub struct Inject {
+    pub input: u8,
+    pub kind: Inj,
+    /// element of array inputs that is replaced
+    pub elem: u8,
+}
+
+#[derive(Serialize, Deserialize, Clone, Debug)]
+pub struct EchoCase {
+    /// 0 propane, 1 propane/butane, 2 methane/ethane/propane (PC-SAFT gross2001 + DIPPR ideal gas)
+    pub model: u8,
+    /// presence bits over [T, V, rho, rho_i, N, N_i, x, p, h, s, u, T0]
+    pub present: u16,
+    pub init: Init,
+    /// false: State::new / State::new_full called directly; true: through StateBuilder
+    pub via_builder: bool,
+    /// source state from which consistent values are computed: T [K], rho/max_density, x, total moles [mol]
+    pub t: f64,
+    pub f_eta: f64,
+    pub x: Vec<f64>,
+    pub n: f64,
+    /// perturbation of each supplied value (1 = consistent with the source state): T, V, rho, rho_i,
+    /// N, N_i, x (unnormalised scaling), p, T0 multiplicative; h, u + (f-1) 10 T, s + (f-1) 5
+    pub pert: Vec<f64>,
+    pub inject: Vec<Inject>,
+}
+
+const ECHO_MODELS: [&[&str]; 3] = [&["propane"], &["propane", "butane"], &["methane", "ethane", "propane"]];
+
+fn echo_spec(model: u8) -> ModelSpec {
+    let names = ECHO_MODELS[(model as usize).min(2)];
+    let recs = &POOLS.pcsaft[0].1;
+    let pure = names
+        .iter()
+        .map(|n| {
+            recs.iter()
+                .find(|r| r["identifier"]["name"].as_str() == Some(n))
+                .unwrap_or_else(|| panic!("gross2001.json has no record {n}"))
+                .clone()
+        })
+        .collect();
+    ModelSpec {
+        family: Family::PcSaft,
+        pure,
+        binary: vec![],
+        seg: None,
+        opts: Opts::default(),
+        source: "shipped:gross2001.json".into(),
+    }
+}
+
+#[derive(Clone, Copy, Debug, PartialEq)]
+enum Level {
+    L1,
+    L2a,
+    L2b,
+    PH,
+    PS,
+    TH,
+    TS,
+    VU,
+}
+
+/// Reference decision table, written from the doc comments of `State::new` / `State::new_full`
+/// (hierarchy: 1. non-iterative from T, V, rho, rho_i, N, N_i, x; 2. density iteration for given
+/// pressure; 3. Newton for (p,h), (p,s), (T,h), (T,s), (V,u) in this order) and the error
+/// messages of `State::_new`.
+struct Table {
+    over: Option<&'static str>,
+    composition: bool,
+    level: Option<Level>,
+    /// enough independent intensive information to fix a state at all
+    physically_determined: bool,
+}
+
+fn table(pr: &dyn Fn(usize) -> bool, ncomp: usize) -> Table {
+    let rho = pr(I_RHO) || pr(I_RHOI);
+    let amount = pr(I_N) || pr(I_NI);
+    let over = if pr(I_RHO) && pr(I_RHOI) {
+        Some("density and partial density")
+    } else if pr(I_N) && pr(I_NI) {
+        Some("moles and total moles")
+    } else if rho && amount && pr(I_V) {
+        Some("density, amount and volume")
+    } else if pr(I_RHOI) && pr(I_NI) {
+        Some("composition from partial density and moles")
+    } else if (pr(I_RHOI) || pr(I_NI)) && pr(I_X) {
+        Some("composition from partial density/moles and molefracs")
+    } else {
+        None
+    };
+    let composition = pr(I_RHOI) || pr(I_NI) || pr(I_X) || ncomp == 1;
+    let mut n = amount || (rho && pr(I_V));
+    if !pr(I_V) && !n {
+        n = true; // "If no extensive property is given, moles is set to the reference value."
+    }
+    let v = pr(I_V) || (rho && n);
+    let full = pr(I_H) || pr(I_S) || pr(I_U) || pr(I_T0);
+    let level = if pr(I_T) && v && n {
+        Some(Level::L1)
+    } else if pr(I_P) && pr(I_T) && n {
+        Some(Level::L2a)
+    } else if pr(I_P) && pr(I_T) && v {
+        Some(Level::L2b)
+    } else if full && n {
+        if pr(I_P) && pr(I_H) {
+            Some(Level::PH)
+        } else if pr(I_P) && pr(I_S) {
+            Some(Level::PS)
+        } else if pr(I_T) && pr(I_H) {
+            Some(Level::TH)
+        } else if pr(I_T) && pr(I_S) {
+            Some(Level::TS)
+        } else if pr(I_U) && pr(I_V) {
+            Some(Level::VU)
+        } else {
+            None
+        }
+    } else {
+        None
+    };
+    let d = rho || (pr(I_V) && amount);
+    let count = [pr(I_T), d, pr(I_P), pr(I_H), pr(I_S), pr(I_U)].iter().filter(|b| **b).count();
+    Table {
+        over,
+        composition,
+        level,
+        physically_determined: composition && count >= 2,
+    }
+}
+
+/// inputs that the selected method reads (everything else is ignored by the documented hierarchy)
+fn used(level: Level, pr: &dyn Fn(usize) -> bool) -> [bool; N_IN] {
+    let mut u = [false; N_IN];
+    let amount = pr(I_N) || pr(I_NI);
+    let first7 = |u: &mut [bool; N_IN]| {
+        for i in [I_T, I_V, I_RHO, I_RHOI, I_N, I_NI, I_X] {
+            u[i] = pr(i);
+        }
+    };
+    match level {
+        Level::L1 => first7(&mut u),
+        Level::L2a | Level::L2b => {
+            first7(&mut u);
+            u[I_P] = true;
+        }
+        Level::PH | Level::PS => {
+            for i in [I_RHOI, I_N, I_NI, I_X] {
+                u[i] = pr(i);
+            }
+            // without N or N_i the amount is V * rho: both are read
+            if !amount && (pr(I_RHO) || pr(I_RHOI)) && pr(I_V) {
+                u[I_V] = true;
+                u[I_RHO] = pr(I_RHO);
+            }
+            u[I_P] = true;
+            u[if level == Level::PH { I_H } else { I_S }] = true;
+            u[I_T0] = pr(I_T0);
+        }
+        Level::TH | Level::TS => {
+            first7(&mut u);
+            u[if level == Level::TH { I_H } else { I_S }] = true;
+        }
+        Level::VU => {
+            for i in [I_V, I_RHO, I_RHOI, I_N, I_NI, I_X] {
+                u[i] = pr(i);
+            }
+            u[I_U] = true;
+            u[I_T0] = pr(I_T0);
+        }
+    }
+    u
+}
+
+fn inj_scalar(v: f64, k: Inj) -> f64 {
+    match k {
+        Inj::Nan => f64::NAN,
+        Inj::PosInf => f64::INFINITY,
+        Inj::NegInf => f64::NEG_INFINITY,
+        Inj::Neg => {
+            if v != 0.0 && v.is_finite() {
+                -v.abs()
+            } else {
+                -1.0
+            }
+        }
+        Inj::NegZero => -0.0,
+        Inj::Zero => 0.0,
+        Inj::Shorter | Inj::Longer => v,
+    }
+}
+
+fn inj_array(a: &mut Vec<f64>, inj: &Inject) {
+    match inj.kind {
+        Inj::Shorter => {
+            a.pop();
+        }
+        Inj::Longer => {
+            let l = a.last().copied().unwrap_or(0.5);
+            a.push(l);
+        }
+        k => {
+            if !a.is_empty() {
+                let e = inj.elem as usize % a.len();
+                a[e] = inj_scalar(a[e], k);
+            }
+        }
+    }
+}
+
+fn is_array(i: usize) -> bool {
+    matches!(i, I_RHOI | I_NI | I_X)
+}
+
+/// supplied values in reduced units after perturbation and injection
+struct Supplied {
+    s: [f64; N_IN],
+    rho_i: Vec<f64>,
+    n_i: Vec<f64>,
+    x: Vec<f64>,
+}
+
+pub fn check_echo(case: &EchoCase, obs: &mut Obs) {
+    let spec = echo_spec(case.model);
+    let nc = spec.n();
+    obs.class(format!("n={nc}"));
+    obs.class(if case.via_builder { "via StateBuilder" } else { "via State::new/new_full" });
+    let pr_bits = case.present & 0x0fff;
+    let pr = move |i: usize| pr_bits & (1 << i) != 0;
+    let n_present = (0..N_IN).filter(|&i| pr(i)).count();
+    if case.x.len() != nc || case.pert.len() != N_IN {
+        obs.discard("malformed case");
+        return;
+    }
+    let model = spec.build().expect("echo model builds");
+    let ig = dippr_model(&(0..nc).collect::<Vec<_>>()).expect("dippr model");
+    let eos = full_model(ig, model.clone());
+    // ---- source state and consistent values (reduced units) ----
+    let xs: f64 = case.x.iter().sum();
+    let x0: Vec<f64> = case.x.iter().map(|v| v / xs).collect();
+    let moles0 = Array1::from_vec(x0.iter().map(|xi| xi * case.n).collect()) * MOL;
+    let rho_max = model.max_density(Some(&moles0)).expect("max_density").to_reduced();
+    let rho0 = case.f_eta * rho_max;
+    let t0q = Temperature::from_reduced(case.t);
+    let src = State::new_nvt(&eos, t0q, moles0.sum() / Density::from_reduced(rho0), &moles0).expect("source state");
+    let n0 = moles0.sum().to_reduced();
+    let f = &case.pert;
+    let mut sup = Supplied {
+        s: [0.0; N_IN],
+        rho_i: x0.iter().map(|xi| xi * rho0 * f[I_RHOI]).collect(),
+        n_i: x0.iter().map(|xi| xi * n0 * f[I_NI]).collect(),
+        x: x0.iter().map(|xi| xi * f[I_X]).collect(),
+    };
+    sup.s[I_T] = case.t * f[I_T];
+    sup.s[I_V] = n0 / rho0 * f[I_V];
+    sup.s[I_RHO] = rho0 * f[I_RHO];
+    sup.s[I_N] = n0 * f[I_N];
+    sup.s[I_P] = src.pressure(TOT).to_reduced() * f[I_P];
+    sup.s[I_H] = src.molar_enthalpy(TOT).to_reduced() + (f[I_H] - 1.0) * 10.0 * case.t;
+    sup.s[I_S] = src.molar_entropy(TOT).to_reduced() + (f[I_S] - 1.0) * 5.0;
+    sup.s[I_U] = src.molar_internal_energy(TOT).to_reduced() + (f[I_U] - 1.0) * 10.0 * case.t;
+    sup.s[I_T0] = case.t * f[I_T0];
+    obs.class(if src.dp_dv(TOT).to_reduced() < 0.0 { "source stable" } else { "source mechanically unstable" });
+
+    // ---- injections ----
+    let mut zero = false; // zero injected into a present input
+    let mut bad = [false; N_IN]; // NaN / inf / negative injected
+    let mut wrong_len = [false; N_IN];
+    for inj in &case.inject {
+        let i = inj.input as usize;
+        if i >= N_IN || !pr(i) {
+            continue;
+        }
+        match inj.kind {
+            Inj::Shorter | Inj::Longer => {
+                if !is_array(i) {
+                    continue;
+                }
+                wrong_len[i] = true;
+            }
+            Inj::Zero | Inj::NegZero => zero = true,
+            _ => bad[i] = true,
+        }
+        match i {
+            I_RHOI => inj_array(&mut sup.rho_i, inj),
+            I_NI => inj_array(&mut sup.n_i, inj),
+            I_X => inj_array(&mut sup.x, inj),
+            _ => sup.s[i] = inj_scalar(sup.s[i], inj.kind),
+        }
+    }
+    // lengths may have been changed twice (shorter + longer): recompute
+    wrong_len[I_RHOI] = pr(I_RHOI) && sup.rho_i.len() != nc;
+    wrong_len[I_NI] = pr(I_NI) && sup.n_i.len() != nc;
+    wrong_len[I_X] = pr(I_X) && sup.x.len() != nc;
+
+    // ---- reference decision ----
+    let tb = table(&pr, nc);
+    #[derive(PartialEq, Debug)]
+    enum Expect {
+        /// the property is silent (zero values) or the input is outside what it speaks about
+        Silent(&'static str),
+        MustErr(&'static str),
+        /// documented method; `Ok` must echo, `Err` is allowed
+        Method(Level),
+        /// Err expected but not asserted
+        Unasserted(&'static str),
+    }
+    let expect = if zero {
+        Expect::Silent("zero value supplied")
+    } else if tb.over.is_some() {
+        Expect::MustErr("over-determined")
+    } else if !tb.composition {
+        Expect::MustErr("under-determined (no composition)")
+    } else {
+        match tb.level {
+            None => {
+                if tb.physically_determined {
+                    Expect::Unasserted("determined but not a documented combination")
+                } else {
+                    Expect::MustErr("under-determined")
+                }
+            }
+            Some(l) => {
+                let u = used(l, &pr);
+                if (0..N_IN).any(|i| u[i] && wrong_len[i]) {
+                    Expect::MustErr("component-count mismatch")
+                } else if [I_T, I_V, I_N, I_NI]
+                    .iter()
+                    .any(|&i| u[i] && bad[i] && !(i == I_V && matches!(l, Level::PH | Level::PS)))
+                {
+                    Expect::MustErr("non-finite or negative T, V or N")
+                } else if [I_T, I_V, I_N, I_NI].iter().any(|&i| bad[i]) {
+                    Expect::Unasserted("invalid V ignored (or used only as n = V rho) by the documented hierarchy at (p,h)/(p,s)")
+                } else if (0..N_IN).any(|i| u[i] && bad[i]) {
+                    Expect::Silent("non-finite or negative rho, rho_i, x, p, h, s, u or T0")
+                } else if (0..N_IN).any(|i| wrong_len[i]) {
+                    // cannot happen: arrays are always read; kept for totality
+                    Expect::Unasserted("wrong-length array ignored")
+                } else {
+                    Expect::Method(l)
+                }
+            }
+        }
+    };
+    obs.class(match &expect {
+        Expect::Silent(s) => format!("silent: {s}"),
+        Expect::MustErr(s) => format!("must-err: {s}"),
+        Expect::Method(l) => format!("method {l:?}"),
+        Expect::Unasserted(s) => format!("unasserted: {s}"),
+    });
+
+    // ---- call the constructor ----
+    let q_t = Temperature::from_reduced(sup.s[I_T]);
+    let q_v = Volume::from_reduced(sup.s[I_V]);
+    let q_rho = Density::from_reduced(sup.s[I_RHO]);
+    let q_rhoi = Density::from_reduced(Array1::from_vec(sup.rho_i.clone()));
+    let q_n = Moles::from_reduced(sup.s[I_N]);
+    let q_ni = Moles::from_reduced(Array1::from_vec(sup.n_i.clone()));
+    let q_x = Array1::from_vec(sup.x.clone());
+    let q_p = Pressure::from_reduced(sup.s[I_P]);
+    let q_h = MolarEnergy::from_reduced(sup.s[I_H]);
+    let q_s = MolarEntropy::from_reduced(sup.s[I_S]);
+    let q_u = MolarEnergy::from_reduced(sup.s[I_U]);
+    let q_t0 = Temperature::from_reduced(sup.s[I_T0]);
+    let init = case.init.to_feos(rho0);
+    let full = pr(I_H) || pr(I_S) || pr(I_U) || pr(I_T0);
+    let call = || -> EosResult<State<FullModel>> {
+        if case.via_builder {
+            let mut b = StateBuilder::new(&eos);
+            if pr(I_T) {
+                b = b.temperature(q_t);
+            }
+            if pr(I_V) {
+                b = b.volume(q_v);
+            }
+            if pr(I_RHO) {
+                b = b.density(q_rho);
+            }
+            if pr(I_RHOI) {
+                b = b.partial_density(&q_rhoi);
+            }
+            if pr(I_N) {
+                b = b.total_moles(q_n);
+            }
+            if pr(I_NI) {
+                b = b.moles(&q_ni);
+            }
+            if pr(I_X) {
+                b = b.molefracs(&q_x);
+            }
+            if pr(I_P) {
+                b = b.pressure(q_p);
+            }
+            b = match case.init {
+                Init::None => b,
+                Init::Vapor => b.vapor(),
+                Init::Liquid => b.liquid(),
+                Init::Rho(f) => b.initial_density(Density::from_reduced(f * rho0)),
+            };
+            if !full {
+                return b.build();
+            }
+            // any of the four setters converts the builder to the IdealGas flavour
+            let mut bf = if pr(I_H) {
+                b.molar_enthalpy(q_h)
+            } else if pr(I_S) {
+                b.molar_entropy(q_s)
+            } else if pr(I_U) {
+                b.molar_internal_energy(q_u)
+            } else {
+                b.initial_temperature(q_t0)
+            };
+            if pr(I_H) {
+                bf = bf.molar_enthalpy(q_h);
+            }
+            if pr(I_S) {
+                bf = bf.molar_entropy(q_s);
+            }
+            if pr(I_U) {
+                bf = bf.molar_internal_energy(q_u);
+            }
+            if pr(I_T0) {
+                bf = bf.initial_temperature(q_t0);
+            }
+            bf.build()
+        } else if full {
+            State::new_full(
+                &eos,
+                pr(I_T).then_some(q_t),
+                pr(I_V).then_some(q_v),
+                pr(I_RHO).then_some(q_rho),
+                pr(I_RHOI).then_some(&q_rhoi),
+                pr(I_N).then_some(q_n),
+                pr(I_NI).then_some(&q_ni),
+                pr(I_X).then_some(&q_x),
+                pr(I_P).then_some(q_p),
+                pr(I_H).then_some(q_h),
+                pr(I_S).then_some(q_s),
+                pr(I_U).then_some(q_u),
+                init,
+                pr(I_T0).then_some(q_t0),
+            )
+        } else {
+            State::new(
+                &eos,
+                pr(I_T).then_some(q_t),
+                pr(I_V).then_some(q_v),
+                pr(I_RHO).then_some(q_rho),
+                pr(I_RHOI).then_some(&q_rhoi),
+                pr(I_N).then_some(q_n),
+                pr(I_NI).then_some(&q_ni),
+                pr(I_X).then_some(&q_x),
+                pr(I_P).then_some(q_p),
+                init,
+            )
+        }
+    };
+    let strict = matches!(expect, Expect::MustErr(_) | Expect::Method(_));
+    let res = if strict {
+        call() // a panic propagates and is a violation (PanicPolicy::Violation)
+    } else {
+        match catch_unwind(AssertUnwindSafe(call)) {
+            Ok(r) => r,
+            Err(_) => {
+                obs.class("panic where the property is silent (counted, not asserted)");
+                return;
+            }
+        }
+    };
+    let describe = || {
+        let mut v = vec![];
+        for i in 0..N_IN {
+            if pr(i) {
+                v.push(match i {
+                    I_RHOI => format!("rho_i={:?}", sup.rho_i),
+                    I_NI => format!("N_i={:?}", sup.n_i),
+                    I_X => format!("x={:?}", sup.x),
+                    _ => format!("{}={:e}", IN_NAMES[i], sup.s[i]),
+                });
+            }
+        }
+        v.join(", ")
+    };
+    match (&expect, res) {
+        (Expect::MustErr(why), Ok(st)) => {
+            obs.fail(format!(
+                "{why}: expected an error, got a state T={} V={} N={} for inputs [{}]",
+                st.temperature,
+                st.volume,
+                st.moles,
+                describe()
+            ));
+        }
+        (Expect::MustErr(_), Err(e)) => {
+            obs.count();
+            obs.class(format!("rejected:{}", err_label(&e)));
+            if n_present >= 3 {
+                obs.nontrivial();
+            }
+        }
+        (Expect::Silent(_) | Expect::Unasserted(_), Ok(st)) => {
+            obs.class("silent/unasserted: ok");
+            // "never turned into a state": T, V, N of anything returned are finite and not negative
+            let t = st.temperature.to_reduced();
+            let v = st.volume.to_reduced();
+            let n = st.moles.to_reduced();
+            obs.ensure(
+                t.is_finite() && !(t < 0.0) && v.is_finite() && !(v < 0.0) && n.iter().all(|m| m.is_finite() && !(*m < 0.0)),
+                || format!("returned state has T={t:e} V={v:e} N={n:?} for inputs [{}]", describe()),
+            );
+        }
+        (Expect::Silent(_) | Expect::Unasserted(_), Err(e)) => {
+            obs.class(format!("silent/unasserted: err:{}", err_label(&e)));
+        }
+        (Expect::Method(l), Err(e)) => {
+            obs.class(format!("{l:?} err:{}", err_label(&e)));
+        }
+        (Expect::Method(l), Ok(st)) => {
+            let l = *l;
+            obs.class(format!("{l:?} ok"));
+            let u = used(l, &pr);
+            check_consistency(obs, &st);
+            if st.moles.len() != nc {
+                return;
+            }
+            let rho = st.density.to_reduced();
+            let nt = st.total_moles.to_reduced();
+            if u[I_T] {
+                obs.ensure(st.temperature == q_t, || format!("temperature not echoed bitwise: {:e} vs {:e}", st.temperature.to_reduced(), sup.s[I_T]));
+            }
+            // V is stored directly whenever it is supplied and read (levels 1, 2b, (V,u))
+            if u[I_V] && matches!(l, Level::L1 | Level::L2b | Level::VU) {
+                obs.ensure(st.volume == q_v, || format!("volume not echoed bitwise: {:e} vs {:e}", st.volume.to_reduced(), sup.s[I_V]));
+            }
+            if l == Level::L1 {
+                if pr(I_RHO) {
+                    within(obs, "echo:derived", "density == specified", rho, sup.s[I_RHO], RTOL_ECHO * rho.abs());
+                }
+                if pr(I_RHOI) {
+                    let pd = st.partial_density.to_reduced();
+                    for i in 0..nc {
+                        within(obs, "echo:derived", "partial_density == specified", pd[i], sup.rho_i[i], RTOL_ECHO * rho.abs());
+                    }
+                }
+            }
+            // amounts: read by every method when supplied
+            if pr(I_N) {
+                within(obs, "echo:derived", "total_moles == specified", nt, sup.s[I_N], RTOL_ECHO * nt.abs());
+            }
+            if pr(I_NI) {
+                let m = st.moles.to_reduced();
+                for i in 0..nc {
+                    within(obs, "echo:derived", "moles == specified", m[i], sup.n_i[i], RTOL_ECHO * nt.abs());
+                }
+            }
+            // composition, normalised as documented
+            let comp: Option<Vec<f64>> = if pr(I_RHOI) {
+                Some(sup.rho_i.clone())
+            } else if pr(I_NI) {
+                Some(sup.n_i.clone())
+            } else if pr(I_X) {
+                Some(sup.x.clone())
+            } else {
+                None
+            };
+            if let Some(c) = comp {
+                let s: f64 = c.iter().sum();
+                for i in 0..nc {
+                    within(obs, "echo:derived", "molefracs == normalised specified composition", st.molefracs[i], c[i] / s, RTOL_ECHO);
+                }
+            }
+            match l {
+                Level::L1 => {}
+                Level::L2a | Level::L2b => {
+                    let start = Start::Npt(case.init, match case.init { Init::Rho(f) => f * rho0, _ => 0.0 });
+                    check_pressure(obs, "echo:pressure", &st, sup.s[I_P], start);
+                }
+                Level::PH => {
+                    check_pressure(obs, "echo:pressure", &st, sup.s[I_P], Start::Unknown);
+                    check_caloric(obs, &st, 0, sup.s[I_H]);
+                }
+                Level::PS => {
+                    check_pressure(obs, "echo:pressure", &st, sup.s[I_P], Start::Unknown);
+                    check_caloric(obs, &st, 1, sup.s[I_S]);
+                }
+                Level::TH => check_caloric(obs, &st, 2, sup.s[I_H]),
+                Level::TS => check_caloric(obs, &st, 3, sup.s[I_S]),
+                Level::VU => check_caloric(obs, &st, 4, sup.s[I_U]),
+            }
+            if n_present >= 3 {
+                obs.nontrivial();
+            }
+        }
+    }
+}
+
+/// draws of the echo lattice: (T [K], f_eta, init, via_builder, perturbations)
+fn echo_draw(model: u8, d: usize) -> EchoCase {
+    let x = match model {
+        0 => vec![1.0],
+        1 => vec![0.4, 0.6],
+        _ => vec![0.2, 0.3, 0.5],
+    };
+    let mut pert = vec![1.0; N_IN];
+    let (t, f_eta, init, via_builder, n) = match d {
+        0 => (300.0, 0.002, Init::None, true, 1.0),
+        1 => {
+            pert[I_X] = 2.0; // unnormalised molefracs
+            (300.0, 0.85, Init::Liquid, false, 2.5e-3)
+        }
+        2 => {
+            pert[I_P] = 1.5;
+            pert[I_V] = 0.7;
+            pert[I_T0] = 1.2;
+            pert[I_N] = 3.0;
+            (450.0, 0.3, Init::Rho(1.0), true, 40.0)
+        }
+        3 => {
+            pert[I_H] = 1.3;
+            pert[I_S] = 0.8;
+            pert[I_U] = 1.2;
+            pert[I_RHO] = 0.5;
+            pert[I_T] = 1.1;
+            (250.0, 1e-4, Init::Vapor, false, 700.0)
+        }
+        _ => {
+            // negative pressure at a supercritical temperature: p(rho) = p has no root at all
+            pert[I_P] = -1.0;
+            (480.0, 0.25, Init::None, d % 2 == 0, 1.0)
+        }
+    };
+    EchoCase {
+        model,
+        present: 0,
+        init,
+        via_builder,
+        t,
+        f_eta,
+        x,
+        n,
+        pert,
+        inject: vec![],
+    }
+}
+
+fn echo_items() -> Vec<EchoCase> {
+    let mut v = vec![];
+    for model in 0..2u8 {
+        for mask in 0..1024u16 {
+            // mask bits: T V rho rho_i N N_i x p C T0 ; C expands to h, s or u
+            let base = mask & 0xff;
+            let c = mask & 0x100 != 0;
+            let t0 = mask & 0x200 != 0;
+            let kinds: &[usize] = if c { &[I_H, I_S, I_U] } else { &[N_IN] };
+            for &k in kinds {
+                let mut present = base;
+                if c {
+                    present |= 1 << k;
+                }
+                if t0 {
+                    present |= 1 << I_T0;
+                }
+                for d in 0..5 {
+                    let mut e = echo_draw(model, d);
+                    e.present = present;
+                    v.push(e);
+                }
+                // single injections on the first draw
+                for i in 0..N_IN {
+                    if present & (1 << i) == 0 {
+                        continue;
+                    }
+                    let mut kinds = vec![Inj::Nan, Inj::NegInf, Inj::Neg];
+                    if matches!(i, I_T | I_V | I_N | I_NI) {
+                        kinds.extend([Inj::PosInf, Inj::Zero, Inj::NegZero]);
+                    }
+                    if is_array(i) {
+                        kinds.extend([Inj::Shorter, Inj::Longer]);
+                    }
+                    for kind in kinds {
+                        let mut e = echo_draw(model, 0);
+                        e.present = present;
+                        e.via_builder = i % 2 == 0;
+                        e.inject = vec![Inject {
+                            input: i as u8,
+                            kind,
+                            elem: (i % 2) as u8,
+                        }];
+                        v.push(e);
+                    }
+                }
+            }
+        }
+    }
+    v
+}
+
+pub fn decode_echo(g: &mut Gen) -> EchoCase {
+    let model = g.index(3) as u8;
+    let nc = ECHO_MODELS[model as usize].len();
+    // presence: each input with probability 0.3 (denser masks are almost always over-determined)
+    let mut present = 0u16;
+    for i in 0..N_IN {
+        if g.bool(0.3) {
+            present |= 1 << i;
+        }
+    }
+    let t = g.range(150.0, 600.0);
+    let u = g.unit();
+    let f_eta = if g.bool(0.5) {
+        0.55 + 0.37 * u
+    } else {
+        (1e-6f64.ln() + u * (0.3f64.ln() - 1e-6f64.ln())).exp()
+    };
+    let x = g.simplex(nc, 1e-3);
+    let n = g.log_range(1e-3, 1e3);
+    let init = gen_init(g, 0.3, 3.0);
+    let via_builder = g.bool(0.5);
+    let pert = (0..N_IN)
+        .map(|_| if g.bool(0.4) { g.log_range(0.5, 2.0) } else { 1.0 })
+        .collect();
+    let mut inject = vec![];
+    for i in 0..N_IN {
+        if present & (1 << i) != 0 && g.bool(0.1) {
+            let kinds: &[Inj] = if is_array(i) {
+                &[Inj::Nan, Inj::PosInf, Inj::NegInf, Inj::Neg, Inj::NegZero, Inj::Zero, Inj::Shorter, Inj::Longer]
+            } else {
+                &[Inj::Nan, Inj::PosInf, Inj::NegInf, Inj::Neg, Inj::NegZero, Inj::Zero]
+            };
+            inject.push(Inject {
+                input: i as u8,
+                kind: g.pick(kinds),
+                elem: g.index(3) as u8,
+            });
+        }
+    }
+    EchoCase {
+        model,
+        present,
+        init,
+        via_builder,
+        t,
+        f_eta,
+        x,
+        n,
+        pert,
+        inject,
+    }
+}
+
+// ---------------------------------------------------------------------------------------
+// Parts
+// ---------------------------------------------------------------------------------------
+const PART_ECHO: PartCfg = PartCfg {
+    name: "echo",
+    genome_len: 64,
+    cases_quick: 30_000,
+    cases_thorough: 1_500_000,
+    panic: PanicPolicy::Violation,
+};
+const PART_TP: PartCfg = PartCfg {
+    name: "tp",
+    genome_len: 96,
+    cases_quick: 4_000,
+    cases_thorough: 400_000,
+    panic: PanicPolicy::Count,
+};
+const PART_GS_BOX: PartCfg = PartCfg {
+    name: "gs-box",
+    genome_len: 16,
+    cases_quick: 12_000,
+    cases_thorough: 600_000,
+    panic: PanicPolicy::Violation,
+};
+const PART_ITER: PartCfg = PartCfg {
+    name: "iter",
+    genome_len: 110,
+    cases_quick: 6_000,
+    cases_thorough: 600_000,
+    panic: PanicPolicy::Count,
+};
+
+pub fn run(ctx: &Ctx) {
+    ctx.set_rule("gs-lattice (seed-independent): every record of gross2001/2002/2005_fit/2005_literature/2006 x 20 T/Tc in [0.45,1.65] x 30 p/pc (log) in [1e-4,10], three hints per case; non-trivial: the Vapor and Liquid hints found different roots (then the un-hinted result is compared with both by an independent Gibbs function) or the point is within 10 % of Tc and a factor 3 of pc. gs-box: sampled points of the same box (half of the sub-critical ones within a factor 3 of the saturation-pressure estimate). tp: proptest genomes -> model zoo (13 families, 1-3 components) x T/T* in [0.45,2] x p/p* log-uniform in [1e-4,1e2] x {None, Vapor, Liquid, InitialDensity(rho0 in [1e-7,1.05] max_density)}; oracle = independent scan of p(rho) (log+linear grid, ~500 points) with bisection; non-trivial: the scan finds both branches (pattern stable-unstable-stable), or within 10 % of T* and factor 3 of p*, or the initial density lies across the unstable root from the result. echo-lattice: all 2^10 presence masks of [T,V,rho,rho_i,N,N_i,x,p,caloric,T0] x caloric kind h/s/u x 4 value draws + every single injection of NaN/-inf/-|v| (all inputs), +inf/0/-0 (T,V,N,N_i), wrong array length, for a pure and a binary PC-SAFT model; echo: 12 independent presence bits (p=0.3), perturbed values, injections with p=0.1 per input, 1-3 components; non-trivial: >= 3 inputs present and a decisive outcome (required Err obtained, or Ok with all echo checks). iter: (p,h),(p,s),(T,h),(T,s),(V,u) targets from mechanically stable p>0 states of the model zoo with DIPPR ideal gas, all density initialisations, with/without initial temperature; non-trivial: a state was returned and compared. Distinct by hash of the canonical case JSON.");
+    ctx.assume("pressure: |p(state)-p| <= 1e-7|p| + 1e-10 + 1e-12(rho T + sum_c|p_c|) in reduced units (K/A^3): 100 x the absolute stopping criterion of density_iteration (1e-12)");
+    ctx.assume("caloric targets: |f(state)-f*| <= 100 |df/dx| (atol + 1e-10|x|) + 1e-12(|f*|+T), x = T (atol 1e-8 K) or rho (atol 1e-12 A^-3): the Newton wrappers return the previous iterate, whose residual is exactly df/dx times the accepted step; df/dx from the library's cp, cv, dp_dv, dp_dt (validated by C01)");
+    ctx.assume("echo: T (always) and V (when supplied and read) bitwise; rho, rho_i, N, N_i, x/sum(x) and the mutual consistency of redundant fields to 5e-14 relative");
+    ctx.assume("reference decision table from the doc comments of State::new/new_full and the error messages of State::_new; required Err only for: over-determined density/amount/composition, missing composition, fewer than two independent intensive specifications, wrong array length, non-finite or negative T/V/N that the selected method reads. Not asserted either way: zero values; invalid rho, rho_i, x, p, h, s, u, T0; a V that the documented hierarchy ignores ((p,h)/(p,s) with N given); physically determined but undocumented combinations (e.g. rho+h)");
+    ctx.assume("Gibbs clause: g/k = a_res + T ln rho + p/rho evaluated by the harness; asserted for root patterns S and SUS only, ties within 1e-9 T; branch clause asserted for pattern SUS only; roots above max_density are not searched; pressure and A_res getters trusted (C01)");
+    ctx.assume("success box: T_c, p_c from State::critical_point of the record's own PC-SAFT model");
+
+    // calibration aid: VERIF_C03_SCALE=20 multiplies the sampled case counts of the tier
+    let scale: u32 = std::env::var("VERIF_C03_SCALE").ok().and_then(|s| s.parse().ok()).unwrap_or(1);
+    let scaled = |c: &PartCfg| PartCfg {
+        name: c.name,
+        genome_len: c.genome_len,
+        cases_quick: c.cases_quick * scale,
+        cases_thorough: c.cases_thorough * scale,
+        panic: c.panic,
+    };
+    let (part_echo, part_gs_box, part_tp, part_iter) =
+        (scaled(&PART_ECHO), scaled(&PART_GS_BOX), scaled(&PART_TP), scaled(&PART_ITER));
+    // development aid: VERIF_C03_PARTS=tp,iter restricts the run to the listed parts
+    let only = std::env::var("VERIF_C03_PARTS").ok();
+    let on = |name: &str| only.as_ref().is_none_or(|l| l.split(',').any(|p| p == name));
+    // --- success lattice ---
+    if on("gs-lattice") {
+        let items = gs_items();
+        ctx.extra("gs_records", json!(items.len() / (GS_NT * GS_NP)));
+        ctx.extra("gs_constructions", json!(items.len() * 3));
+        ctx.run_lattice("gs-lattice", items, PanicPolicy::Violation, false, &check_gs);
+    }
+    // --- echo lattice ---
+    if on("echo-lattice") {
+        let items = echo_items();
+        ctx.run_lattice("echo-lattice", items, PanicPolicy::Violation, true, &check_echo);
+    }
+    // --- sampled parts ---
+    if on("echo") {
+        ctx.run_sampled(&part_echo, &decode_echo, &check_echo);
+    }
+    if on("gs-box") {
+        ctx.run_sampled(&part_gs_box, &decode_gs_box, &check_tp);
+    }
+    if on("tp") {
+        ctx.run_sampled(&part_tp, &decode_tp, &check_tp);
+    }
+    if on("iter") {
+        ctx.run_sampled(&part_iter, &decode_iter, &check_iter);
+    }
+
+    let worst: BTreeMap<String, Value> = WORST
+        .lock()
+        .unwrap()
+        .iter()
+        .map(|(k, (r, w))| (k.clone(), json!({"worst_ratio_to_tolerance": r, "at": w})))
+        .collect();
+    ctx.extra("worst_ratios", json!(worst));
+}
+
+pub fn replay(ctx: &Ctx, part: &str, case: &Value) -> bool {
+    match part {
+        "gs-lattice" => ctx.replay_case::<GsCase>(case, &check_gs),
+        "echo-lattice" | "echo" => ctx.replay_case::<EchoCase>(case, &check_echo),
+        "gs-box" | "tp" => ctx.replay_case::<TpCase>(case, &check_tp),
+        "iter" => ctx.replay_case::<IterCase>(case, &check_iter),
+        other => {
+            eprintln!("C03: unknown part {other}");
+            std::process::exit(2);
+        }
+    }
 }
